@@ -64,12 +64,13 @@ def run_tlc(
     coverage=False,
     simulate=None,
     deque=False,
+    heap="6g",
 ):
     """Run TLC on spec/<module>.tla with spec/<cfg>. Returns TlcResult. Raises MachineryError on
     parse errors / crashes / timeouts (anything that is not 'ok' or a property violation)."""
     workers = workers or NCPU
     meta = tempfile.mkdtemp(prefix="tlcmeta_", dir=scratch)
-    java = ["java", "-XX:+UseParallelGC", "-Xmx6g", "-Xss64m"]
+    java = ["java", "-XX:+UseParallelGC", "-Xmx" + heap, "-Xss64m"]
     if deque:
         java.append("-Dtlc2.tool.queue.IStateQueue=StateDeque")
     cmd = java + [
@@ -188,7 +189,7 @@ def _validate_shard(module, cfg, cases, scratch, idx, timeout):
         for c in cases:
             f.write(json.dumps(_clean(c), separators=(",", ":")) + "\n")
     try:
-        r = run_tlc(module, cfg, scratch, workers=1, env={"CASES": path}, timeout=timeout)
+        r = run_tlc(module, cfg, scratch, workers=1, env={"CASES": path}, timeout=timeout, heap="3g")
     finally:
         os.unlink(path)
     from tlaval import parse
